@@ -17,7 +17,8 @@ let hex_of_bytes (l : n list) : string =
 (* argv: global_check weak_refused unreg_single (0/1 each); default 0 0 0 = /repo HEAD *)
 let flag i = Array.length Sys.argv > i && Sys.argv.(i) = "1"
 let ext = ref default_ext
-let cf () = { cfg_global_check = flag 1; cfg_weak_refused = flag 2; cfg_unreg_single = flag 3; cfg_ext = !ext }
+let tight = ref false
+let cf () = { cfg_global_check = flag 1; cfg_weak_refused = flag 2; cfg_unreg_single = flag 3; cfg_ext = !ext; cfg_tight = !tight }
 
 let p = ref proc_init
 
@@ -37,7 +38,8 @@ let () =
   iter_lines stdin (fun line ->
     match split_ws line with
     | [] -> ()
-    | "case" :: _ -> p := proc_init; ext := default_ext; print_endline line
+    | "case" :: _ -> p := proc_init; ext := default_ext; tight := false; print_endline line
+    | ["tight"; b] -> tight := (b = "1"); obs ()
     | ["types"; a; b; c; d] -> ext := List.map (fun s -> z_of_int (int_of_string s)) [a; b; c; d]; obs ()
     | ["setfile"; s; hx] -> doit (OSetFile (ni s, bytes_of_hex hx))
     | "screen" :: w :: h :: name :: "none" :: [] ->
